@@ -193,6 +193,16 @@ func (en *Engine) ValEnv(env map[string]*model.Val) *val.Env {
 	return ve
 }
 
+// ValEnvIncremental is ValEnv with every value assembled step by step (ToYaeValIncremental):
+// lists grown with Add have spare capacity in their slices, as hand-built host values do.
+func (en *Engine) ValEnvIncremental(env map[string]*model.Val) *val.Env {
+	ve := val.NewEnv()
+	for _, n := range sortedValKeys(env) {
+		ve.Put(n, ToYaeValIncremental(env[n], en.lookupFun))
+	}
+	return ve
+}
+
 func (en *Engine) lookupFun(name string, t *model.Type) *val.Val {
 	if fv, ok := en.Funs[name]; ok {
 		return fv
